@@ -1,6 +1,6 @@
 (* Run/C18_run.v -- correspondence runner for C18 (harness/cmd/c18/main.go).
    wire:
-     (0 unit ib has_sum ((counts sum)...) impl)   impl = (0) panic | (1 hb ((count sum ((ub cum)...))...) unchanged same)
+     (0 unit ib has_sum ((counts sum)...) impl)   impl = (0) panic | (1 hb ((count sum ((ub cum)...))...) unchanged same gathered)
      (1 ((((match deny)...) included)...) order_ok)             rule matching over metrics.All()
      (2 name cumulative kind fq valid)                           RuntimeMetricsToProm
      (3 ((name cumulative kind fq)...))                          sampleBuf[i] against rmExposedMetrics[i] *)
@@ -19,13 +19,13 @@ Definition d_wout (s : sx) : option wout :=
   end.
 
 (* observables, and the two purity flags (true, true when the code panicked: nothing was observed) *)
-Definition d_impl (s : sx) : option (option (list f64 * list wout) * bool * bool) :=
+Definition d_impl (s : sx) : option (option (list f64 * list wout) * bool * bool * bool) :=
   match s with
-  | SL [SZ 0] => Some (None, true, true)
-  | SL [SZ 1; hb; ws; un; sm] =>
-      match dL dF hb, dL d_wout ws, dB un, dB sm with
-      | Some hb, Some ws, Some un, Some sm => Some (Some (hb, ws), un, sm)
-      | _, _, _, _ => None
+  | SL [SZ 0] => Some (None, true, true, true)
+  | SL [SZ 1; hb; ws; un; sm; ga] =>
+      match dL dF hb, dL d_wout ws, dB un, dB sm, dB ga with
+      | Some hb, Some ws, Some un, Some sm, Some ga => Some (Some (hb, ws), un, sm, ga)
+      | _, _, _, _, _ => None
       end
   | _ => None
   end.
@@ -71,8 +71,9 @@ Definition check (s : sx) : Z :=
   match s with
   | SL [SZ 0; u; ib; hs; ups; impl] =>
       match d_unit u, dL dF ib, dB hs, dL (dP (dL dZ) dF) ups, d_impl impl with
-      | Some u, Some ib, Some hs, Some ups, Some (o, un, sm) =>
-          both (spec_ok u ib ups o && purity_ok un sm) (out_eqb (run_hist u ib hs ups) o)
+      | Some u, Some ib, Some hs, Some ups, Some (o, un, sm, ga) =>
+          both (spec_ok u ib ups o && purity_ok un sm && gather_ok (precondition u ib ups) ga)
+               (out_eqb (run_hist u ib hs ups) o)
       | _, _, _, _, _ => code_decode_error
       end
   | SL [SZ 1; names; ord] =>
@@ -111,9 +112,9 @@ Definition explain (s : sx) : sx :=
   match s with
   | SL [SZ 0; u; ib; hs; ups; impl] =>
       match d_unit u, dL dF ib, dB hs, dL (dP (dL dZ) dF) ups, d_impl impl with
-      | Some u, Some ib, Some hs, Some ups, Some (o, un, sm) =>
+      | Some u, Some ib, Some hs, Some ups, Some (o, un, sm, ga) =>
           SL [e_out (run_hist u ib hs ups);
-              SL [eB (precondition u ib ups); eB (purity_ok un sm);
+              SL [eB (precondition u ib ups); eB (purity_ok un sm); eB (gather_ok (precondition u ib ups) ga);
                   eL (fun up => SZ (wrap64 (sumZ (fst up)))) ups;
                   match o with
                   | Some (hb, ws) =>
